@@ -1042,7 +1042,25 @@ impl<'a> Walk<'a> {
                 self.kind("pat_tuple");
                 tagged("ptuple", pats.iter().map(|p| self.pat(*p)).collect())
             }
-            hir::Pat::PConstr { .. } => self.bad("PConstr"),
+            hir::Pat::PConstr { constructor, args } => {
+                let Some(info) = self.ctor_info(&constructor) else { return self.bad("PConstr-qualified") };
+                // a struct constructor used with tuple-pattern syntax is a diagnostic of its own ("must use field syntax")
+                if let S::L(items) = &info {
+                    if items.first() == Some(&a("ctor")) {
+                        let is_struct = match &constructor {
+                            hir::ConstructorRef::Resolved(_) => false,
+                            _ => true,
+                        };
+                        if is_struct {
+                            return self.bad("PConstr-unresolved");
+                        }
+                    }
+                }
+                self.kind("pat_constr");
+                let mut v = vec![info];
+                v.extend(args.iter().map(|p| self.pat(*p)));
+                tagged("pconstr", v)
+            }
             hir::Pat::PStruct { .. } => self.bad("PStruct"),
             hir::Pat::PInt8 { value } => self.tint(&value, Ty::TInt8, -(1i128 << 7), (1i128 << 7) - 1),
             hir::Pat::PInt16 { value } => self.tint(&value, Ty::TInt16, -(1i128 << 15), (1i128 << 15) - 1),
